@@ -35,6 +35,26 @@ theorem one_sender_per_partition (cfg : Cfg) (s : State) (hr : Reachable cfg s) 
   have h2 := (invOrd cfg s hr).uniq pw' P' h'
   rw [htp, h2] at h1; cases h1; rfl
 
+/-- **no_writer_after_close** — batchMessages queues nothing and creates no partition writer once the Writer is
+closed (the re-check of `w.closed` under `w.mutex`, `fix:` ff73da6 in /repo); this is what keeps
+`one_sender_per_partition` true in the window "call passed enter(), then Close ran" (defects D1 / D1b). -/
+theorem no_writer_after_close (cfg : Cfg) (s s' : State) :
+    (∀ c, step cfg s (.batch c) = some s' → s.closed = false) ∧
+    (∀ pw q tp, step cfg s (.newPW pw q tp) = some s' → s.closed = false) := by
+  constructor
+  · intro c hs
+    simp only [step] at hs
+    repeat' split at hs
+    all_goals (first | (cases hs; done) | skip)
+    rename_i _ C hC hg
+    exact hg.2.1
+  · intro pw q tp hs
+    simp only [step] at hs
+    repeat' split at hs
+    all_goals (first | (cases hs; done) | skip)
+    rename_i hg
+    exact hg.2.1
+
 /-- **copies_are_whole_batches** — an applied produce attempt appends exactly the messages of the batch being
 sent, in batch order, to the log of that batch's topic-partition, and nothing else changes in any log. -/
 theorem copies_are_whole_batches (cfg : Cfg) (s s' : State) (pw : Nat) (tp : TP) (msgs : List Msg) (out : BrOut)
@@ -149,5 +169,16 @@ def exTrace : List Event :=
 /-- the run is accepted, and its log holds two copies of the first batch followed by the second batch -/
 example : ((run exCfg State.init exTrace).map (fun s => (s.log ("t", 0)).map (fun e => (e.msg, e.seq, e.batch)))) =
     some [((1, 0), 0, 1), ((1, 0), 0, 1), ((2, 0), 1, 2)] := by decide
+
+/-- D1's window — a call passed enter(), Close marked the Writer closed, then the call reaches batchMessages — is not
+a behaviour of the model: the call can only be rejected (`reject … closed`), `batch` is not enabled. -/
+example : (run exCfg State.init
+    [ .enter true, .begin_ 1 [{ size := 45, topic := "" }], .assign 1 0 ("t", 0), .closeBegin, .closeMarked 0, .batch 1 ]).isSome = false := by
+  decide
+
+example : (run exCfg State.init
+    [ .enter true, .begin_ 1 [{ size := 45, topic := "" }], .assign 1 0 ("t", 0), .closeBegin, .closeMarked 0,
+      .reject 1 .closed 0, .ret 1 .closed, .closeReturn ]).isSome = true := by
+  decide
 
 end KV.C07
